@@ -24,7 +24,8 @@ package pool
 //@ pure authorised(m string, id string, n int64) bool = authOK && authMethod == m && authID == id && authNonce == n && nonceOK && nonceID == id && nonceVal == n
 
 //@ func (*VipnodePool).verify
-//@ property C04 C05 C06
+//@ property C04 C05 C06 C15
+//@ safety on
 //@ ensures [accepted] err == nil ==> authorised(method, nodeID, nonce) && authArgs == args
 //@                                   && old(p.Store.nonce[nodeID]) < nonce && p.Store.nonce == upd(old(p.Store.nonce), nodeID, nonce)
 //@ ensures [refused]  err != nil ==> typeis(err, VerifyFailedError) && p.Store.nonce == old(p.Store.nonce) && effects == old(effects)
@@ -220,7 +221,8 @@ package pool
 //@ ensures [refused-no-trace] !(authOK && nonceOK) ==> effects == old(effects) && p.Store.nonce == old(p.Store.nonce)
 
 //@ func (*VipnodePool).CloseRemote
-//@ property C09 C10
+//@ property C09 C10 C15
+//@ safety on
 //@ requires !held(p.mu) && registryInv(p)
 //@ ensures [inv]          registryInv(p)
 //@ ensures [exact]        forall id store.NodeID :: has(p.remoteHosts, id) <==> (old(has(p.remoteHosts, id)) && old(p.remoteHosts[id]) != remote)
